@@ -21,7 +21,7 @@ def cases(draw, tier):
     kind = draw(st.sampled_from(['collect', 'first', 'first']))
     eid = [0]
     acts = []
-    fails = kind == 'collect' and draw(st.integers(0, 2)) == 0
+    fails = draw(st.integers(0, 2)) == 0 if kind == 'collect' else draw(st.integers(0, 3)) == 0
     for i in range(n):
         d = draw(st.sampled_from(DUR))
         steps = []
@@ -62,6 +62,12 @@ def cases(draw, tier):
     caller = {'name': 'cl', 'steps': ([{'op': 'sleep', 'd': draw(st.sampled_from([0, 0.5, 1]))}] if draw(st.booleans()) else [])
               + [op, {'op': 'sleep', 'd': 1}, {'op': 'sleep', 'd': 6}]}
     other = {'name': 'ot', 'steps': [{'op': 'sleep', 'd': 1}, {'op': 'sleep', 'd': 1}]}
+    if draw(st.integers(0, 3)) == 0:
+        # an independent second caller of first() at the same time: two iterations must not get in each other's way
+        d1, d2 = draw(st.sampled_from([(1, 2), (0.5, 3), (2, 2.5)]))
+        extra = extra + [{'name': 'c2', 'steps': [{'op': 'first', 'count': 2, 'acts': [
+            {'name': 'y0', 'steps': [{'op': 'sleep', 'd': d1}, {'op': 'return', 'v': 201}]},
+            {'name': 'y1', 'steps': [{'op': 'sleep', 'd': d2}, {'op': 'return', 'v': 202}]}]}]}]
     blk = {'op': 'scope', 'name': 'S', 'children': extra + [caller, other], 'body': [], 'catch': True}
     prog = {'start': draw(st.sampled_from([0, 0, -1, 2.5])), 'objs': {}, 'roots': [{'name': 'r0', 'steps': [blk]}]}
     faults = draw(st.lists(st.fixed_dictionaries({'k': st.integers(0, 60), 'target': st.just('cl'), 'token': st.just([1])}),
@@ -101,6 +107,14 @@ def judge(out, case, it, oc, exc, ctx):
     S = Structure(prog)
     log = [e for e in it.log if e[0] <= it.end_seq]
     per = by_activity(it.log, it.end_seq)
+    if 'c2' in S.acts:
+        node2 = S.acts['c2']['steps'][0]
+        want2 = [(a['steps'][1]['v'], prog['start'] + num(a['steps'][0]['d'])) for a in node2['acts']]
+        got2 = [(e[5], e[4]) for e in per.get('c2', ()) if e[3] == 'got']
+        if got2 != want2:
+            out.fail('first', 'second_caller_disturbed', 'an independent first() running at the same time yielded %r, expected %r;%s' % (
+                got2, want2, ctx))
+        out.features.add('two_callers')
     cl = S.acts['cl']
     sidx = next(i for i, s in enumerate(cl['steps']) if s['op'] in ('collect', 'first'))
     node = cl['steps'][sidx]
@@ -179,7 +193,68 @@ def judge(out, case, it, oc, exc, ctx):
                     if per.get(nm):
                         out.fail('first', 'ran_despite_valueerror', '%s ran although first() refused;%s' % (nm, ctx))
             return
-        order = sorted(range(n), key=lambda i: (ct[i][0], ct[i][1], i))
+        if failing and not cancelled:
+            # ---- some activities fail: results come in completion order until the failure is reported - at once if the
+            # consumer is waiting for a result, otherwise when it comes back for the next one; first() may also be done before
+            winners = sorted((i for i in range(n) if i not in failing), key=lambda i: (ct[i][0], ct[i][1], i))
+            tf = min(ct[i][0] for i in failing)
+            firsts = {ident(acts[i]) for i in failing if ct[i][0] == tf}
+            lim = k if brk is None else min(k, brk)
+            exp, ask, raise_at, ambiguous = [], t0, None, False
+            while True:
+                if len(exp) >= lim:
+                    # all results wanted were handed out; unless the consumer breaks off it asks once more (after its
+                    # gap), which is when first() ends - and reports a failure that happened meanwhile
+                    if not (brk is not None and brk <= k):
+                        if tf < ask:
+                            raise_at = ask
+                        elif tf == ask:
+                            ambiguous = True
+                    break
+                if tf < ask:
+                    raise_at = ask
+                    break
+                nxt = winners[len(exp)] if len(exp) < len(winners) else None
+                c = None if nxt is None else max(ct[nxt][0], ask)
+                if c is None or tf < c:
+                    raise_at = tf
+                    break
+                if tf == c or tf == ask:
+                    ambiguous = True          # result and failure in one time step: either may come first
+                    break
+                exp.append((val(nxt), c))
+                ask = c + gap
+            out.features.add('first_with_failure')
+            if ambiguous:
+                out.features.add('first_failure_tie')
+            else:
+                gots = [(e[5], e[4]) for e in es if e[3] == 'got']
+                excs = [e for e in es if e[3] == 'got_exc']
+                if gots != exp:
+                    out.fail('first', 'results_before_failure', 'first() over failing activities yielded %r, expected %r (failure at %r);%s' % (
+                        gots, exp, tf, ctx))
+                elif raise_at is None:
+                    if excs:
+                        out.fail('first', 'failure_after_done', 'first() was done before the failure at %r but raised %r;%s' % (tf, excs[0][5], ctx))
+                elif not excs:
+                    out.fail('first', 'failure_swallowed', 'an activity failed at %r but first() did not raise (expected at %r);%s' % (tf, raise_at, ctx))
+                else:
+                    desc = excs[0][5]
+                    kids = [desc] if desc[0] == 'prog' else list(desc[1]) if desc[0] == 'conc' else []
+                    eids = {k_[1] for k_ in kids if k_[0] == 'prog'}
+                    if not eids or not eids <= {ident(acts[i]) for i in failing if ct[i][0] <= raise_at}:
+                        out.fail('first', 'wrong_failure', 'first() raised %r; failures so far %r;%s' % (desc, sorted(firsts), ctx))
+                    elif excs[0][4] != raise_at:
+                        out.fail('first', 'failure_time', 'first() raised at %r, expected %r (failure at %r, consumer %s);%s' % (
+                            excs[0][4], raise_at, tf, 'waiting' if raise_at == tf else 'busy until then', ctx))
+                    end_ev = excs[0]
+            if end_ev is None:
+                fin = [e for e in es if e[3] in ('ok', 'got_exc')]
+                end_ev = fin[0] if fin else None
+            order = None
+        else:
+            order = sorted(range(n), key=lambda i: (ct[i][0], ct[i][1], i))
+    if node['op'] == 'first' and order is not None:
         gots = [e for e in es if e[3] == 'got']
         lim = k if brk is None else min(k, brk)
         # expected deliveries
